@@ -48,9 +48,9 @@ CHECKS = {
     "C02": dict(cat="other", ref="DESIGN.md §4 C02 (E1 variant, see §11)", technique="CrossHair symbolic execution of the real send path and the peer's receive path with the senders' interleaving as a symbolic merge order of whole frames",
                 text="Bounded symbolic check: for every order-preserving interleaving of two senders' frames (symbolic), symbolic item values and chunking, the peer's per-channel sequences equal the per-channel wire order. Interleavings are at frame (send-call) granularity; preemption inside a send is C08's schedule part.",
                 note=E1_NOTE + "; queue.Queue thread-safety and frame atomicity are assumed"),
-    "C03": dict(cat="other", ref="DESIGN.md §4 C03 (E1 variant, see §11)", technique="CrossHair symbolic execution of the close protocol on both sides over histories (explicit close / end of remote_exec / reference drop) with symbolic items, sibling traffic and number of late receives",
-                text="Bounded symbolic check of close-after-data ordering and of both sides' post-close behaviour; several concurrently blocked receivers are outside this check.",
-                note=E1_NOTE + "; receiver thread body runs synchronously"),
+    "C03": dict(cat="other", ref="DESIGN.md §4 C03, §11", technique="E1: CrossHair symbolic execution of the close protocol on both sides over histories; E2: bounded model checking (z3) of several receivers blocked in receive()/waitclose() racing the receiver thread's last item and close / connection loss, counterexamples replayed on the real classes",
+                text="Bounded symbolic check of close-after-data ordering and post-close behaviour of both sides (five close causes), plus bounded model checking over all schedules of 2-3 blocked receivers and a waitclose caller.",
+                note=E1_NOTE + "; E2 part trusts the translator (validated per run), the queue/map/lock/event models and z3"),
     "C18": dict(cat="other", ref="DESIGN.md §4 C18", technique="E3: the id-allocation kernel read from the real source by AST and its parity/freshness invariant shown inductive in z3 over unbounded integers; E1: CrossHair symbolic execution of channel-over-channel transfer and table hygiene",
                 text="One-step induction (z3, unbounded ints) for id disjointness/freshness over histories of any length, relying on the lock seen in the AST for atomicity of read-and-increment; bounded symbolic execution for (de)serialisation of channels and for the channel tables returning to baseline.",
                 note=E1_NOTE + "; E3 trusts the AST extraction of (start counts, increment, with-lock block) and threading.RLock's mutual exclusion; concurrent newchannel() schedules are not explored beyond that"),
